@@ -2,6 +2,7 @@ package rules
 
 import (
 	"fmt"
+	"go/token"
 	"go/types"
 	"reflect"
 	"sort"
@@ -21,6 +22,7 @@ func init() {
 	register("U1", 2, "failed authentication changes nothing: every update of the connection table in AuthenticateConnection lies on a path that returns nil; every error return is preceded by no such update", ruleU1)
 	register("U2", 4, "credential fields are enforced: Enabled, NoPassword and the password type/value each control the outcome of AuthenticateConnection", ruleU2)
 	register("U3", 15, "persistence coverage: every field of acl.User / acl.Password is exported and carries json and yaml tags; Merge and Replace cover every non-identity field", ruleU3)
+	register("UP", 2, "user records are edited in place: connections hold a pointer to their user's record, so a record in the user list is never exchanged for another object (and the list is only appended to, or shrunk together with the termination of the affected connections)", ruleUP)
 	register("U4", 1, "the default user cannot be deleted: the removal in DeleteUser is unreachable for the username \"default\"", ruleU4)
 	register("U5", 2, "a new connection is bound to the default user and authenticated exactly when that user needs no password", ruleU5)
 }
@@ -150,7 +152,7 @@ func isResourceField(name string) func(ssa.Value) bool {
 			return world.FieldName(x) == name && isKeyResType(x.X.Type())
 		case *ssa.Field:
 			st, ok := x.X.Type().Underlying().(*types.Struct)
-			return ok && st.Field(x.Field).Name() == name && isKeyResType(x.X.Type())
+			return ok && world.CanonField(st.Field(x.Field)) == name && isKeyResType(x.X.Type())
 		}
 		return false
 	}
@@ -293,7 +295,7 @@ func ruleQ(w *world.World, r *report.RuleResult) {
 				if iff == nil {
 					continue
 				}
-				cond := iff.Cond
+				cond := world.CondValue(iff)
 				neg := false
 				if u, ok := cond.(*ssa.UnOp); ok && u.Op.String() == "!" {
 					cond, neg = u.X, true
@@ -322,7 +324,7 @@ func ruleQ(w *world.World, r *report.RuleResult) {
 					}
 				}
 				// shape 2 (good): condition derives from an element of R and controls the deny verdict directly…
-				if derivesFrom(iff.Cond, isElem, 0) {
+				if derivesFrom(world.CondValue(iff), isElem, 0) {
 					for _, s := range b.Succs {
 						if g := denyAt(st, s, b); g != "" {
 							siteGood = g
@@ -474,7 +476,7 @@ func ruleFE(w *world.World, r *report.RuleResult) {
 					}
 				case *ssa.Field:
 					if n, ok := x.X.Type().(*types.Named); ok && (n.Obj().Name() == "User" || n.Obj().Name() == "Connection") && strings.HasSuffix(n.Obj().Pkg().Path(), "/acl") {
-						name, val = n.Obj().Name()+"."+n.Underlying().(*types.Struct).Field(x.Field).Name(), x
+						name, val = n.Obj().Name()+"."+world.CanonField(n.Underlying().(*types.Struct).Field(x.Field)), x
 					}
 				}
 				if name == "" {
@@ -500,8 +502,8 @@ func ruleFE(w *world.World, r *report.RuleResult) {
 	credential := map[string]bool{"Username": true, "Enabled": true, "NoPassword": true, "Passwords": true}
 	var want []string
 	for i := 0; i < userT.NumFields(); i++ {
-		if !credential[userT.Field(i).Name()] {
-			want = append(want, "User."+userT.Field(i).Name())
+		if !credential[world.CanonField(userT.Field(i))] {
+			want = append(want, "User."+world.CanonField(userT.Field(i)))
 		}
 	}
 	want = append(want, "Connection.Authenticated", "Connection.User")
@@ -546,12 +548,12 @@ func ruleT4(w *world.World, r *report.RuleResult) {
 			return world.FieldName(x) == "Authenticated"
 		case *ssa.Field:
 			st, ok := x.X.Type().Underlying().(*types.Struct)
-			return ok && st.Field(x.Field).Name() == "Authenticated"
+			return ok && world.CanonField(st.Field(x.Field)) == "Authenticated"
 		}
 		return false
 	}
 	must := world.Must(az, func(b *ssa.BasicBlock, si int) world.Facts {
-		if iff := world.IfOf(b); iff != nil && derivesFrom(iff.Cond, isAuthField, 0) {
+		if iff := world.IfOf(b); iff != nil && derivesFrom(world.CondValue(iff), isAuthField, 0) {
 			return AUTHD // either edge: the test has been evaluated
 		}
 		return 0
@@ -563,7 +565,7 @@ func ruleT4(w *world.World, r *report.RuleResult) {
 			return nil
 		}
 		var cs []string
-		constStrings(iff.Cond, 0, &cs)
+		constStrings(world.CondValue(iff), 0, &cs)
 		return cs
 	}
 	n := 0
@@ -708,7 +710,7 @@ func ruleU1(w *world.World, r *report.RuleResult) {
 		if iff == nil {
 			return 0
 		}
-		c := iff.Cond
+		c := world.CondValue(iff)
 		neg := false
 		if u, ok := c.(*ssa.UnOp); ok && u.Op.String() == "!" {
 			c, neg = u.X, true
@@ -752,13 +754,13 @@ func ruleU2(w *world.World, r *report.RuleResult) {
 			}
 			for _, field := range []string{"Enabled", "NoPassword", "PasswordType", "PasswordValue", "Username"} {
 				fld := field
-				if derivesFrom(iff.Cond, func(v ssa.Value) bool {
+				if derivesFrom(world.CondValue(iff), func(v ssa.Value) bool {
 					switch x := v.(type) {
 					case *ssa.FieldAddr:
 						return world.FieldName(x) == fld
 					case *ssa.Field:
 						st, ok := x.X.Type().Underlying().(*types.Struct)
-						return ok && st.Field(x.Field).Name() == fld
+						return ok && world.CanonField(st.Field(x.Field)) == fld
 					}
 					return false
 				}, 0) {
@@ -816,7 +818,9 @@ func ruleU3(w *world.World, r *report.RuleResult) {
 		for _, m := range []string{"Merge", "Replace"} {
 			fn := w.Func("internal/modules/acl.(*User)." + m)
 			if fn == nil || len(fn.Params) < 2 {
-				r.Und("User."+m, "-", "method acl.User."+m+" not found")
+				// the copier may legitimately be written differently; whether LOAD keeps records in
+				// place is decided by UP, the field coverage of this copier only when it exists
+				r.Skip("User."+m, "-", "method acl.User."+m+" not present: field coverage of the "+m+" copier not decided")
 				continue
 			}
 			src := fn.Params[1]
@@ -836,7 +840,7 @@ func ruleU3(w *world.World, r *report.RuleResult) {
 				}
 			}
 			for i := 0; i < st.NumFields(); i++ {
-				f := st.Field(i).Name()
+				f := world.CanonField(st.Field(i))
 				if f == "Username" {
 					continue
 				}
@@ -864,7 +868,7 @@ func ruleU4(w *world.World, r *report.RuleResult) {
 		if iff == nil {
 			return 0
 		}
-		bo, ok := iff.Cond.(*ssa.BinOp)
+		bo, ok := world.CondValue(iff).(*ssa.BinOp)
 		if !ok {
 			return 0
 		}
@@ -1083,4 +1087,112 @@ func elementCheckBypass(fn *ssa.Function, isElem func(ssa.Value) bool) ssa.Instr
 		}
 	}
 	return nil
+}
+
+// ---- UP ----
+
+// ruleUP: every authenticated connection keeps a *User pointer; authorization reads the rules through
+// it. The design therefore relies on user records being modified in place. Replacing an element of
+// ACL.Users (or the whole list) by other objects detaches the open connections from the list: they
+// keep the old rules, and later SETUSER/DELUSER/LOAD no longer reach them. Such a replacement is
+// accepted only in a function that also walks ACL.Connections and re-binds or terminates them.
+func ruleUP(w *world.World, r *report.RuleResult) {
+	isUsersAddr := func(v ssa.Value) bool {
+		fa, ok := v.(*ssa.FieldAddr)
+		return ok && world.FieldName(fa) == "Users" && world.TypeIs(fa.X.Type(), "internal/modules/acl", "ACL")
+	}
+	isUsersLoad := func(v ssa.Value) bool {
+		u, ok := v.(*ssa.UnOp)
+		return ok && u.Op == token.MUL && isUsersAddr(u.X)
+	}
+	handlesConnections := func(fn *ssa.Function) bool {
+		walks, acts := false, false
+		for _, b := range fn.Blocks {
+			for _, in := range b.Instrs {
+				switch x := in.(type) {
+				case *ssa.Range:
+					if u, ok := x.X.(*ssa.UnOp); ok {
+						if fa, ok := u.X.(*ssa.FieldAddr); ok && world.FieldName(fa) == "Connections" {
+							walks = true
+						}
+					}
+				case *ssa.MapUpdate:
+					if u, ok := x.Map.(*ssa.UnOp); ok {
+						if fa, ok := u.X.(*ssa.FieldAddr); ok && world.FieldName(fa) == "Connections" {
+							acts = true
+						}
+					}
+				case ssa.CallInstruction:
+					if x.Common().IsInvoke() {
+						switch x.Common().Method.Name() {
+						case "SetReadDeadline", "SetDeadline", "Close":
+							acts = true
+						}
+					}
+				}
+			}
+		}
+		return walks && acts
+	}
+	n := 0
+	for _, fn := range w.FuncsIn("internal/modules/acl") {
+		if strings.Contains(w.Pos(fn.Pos()), "_test.go") {
+			continue
+		}
+		top := world.Outermost(fn)
+		if top.Signature.Recv() == nil && strings.HasPrefix(top.Name(), "New") {
+			continue // constructor: no connection exists yet
+		}
+		name := world.FuncName(fn)
+		k := 0
+		for _, b := range fn.Blocks {
+			for _, in := range b.Instrs {
+				st, ok := in.(*ssa.Store)
+				if !ok {
+					continue
+				}
+				// (1) element overwrite: acl.Users[i] = x
+				if ia, ok := st.Addr.(*ssa.IndexAddr); ok && isUsersLoad(ia.X) {
+					n++
+					k++
+					key := fmt.Sprintf("%s|user-record-replaced#%d", name, k)
+					if handlesConnections(top) {
+						r.OK(key, w.InstrPos(in), "a user record is exchanged in a function that also walks the connection table and re-binds / terminates the connections")
+					} else {
+						r.Fail(key, w.InstrPos(in), name+" puts another *User object into a slot of the user list instead of editing the record in place: every connection that authenticated before keeps pointing at the old object, so it is still authorized by the old rules, and later ACL SETUSER / DELUSER / LOAD changes to that user never reach it")
+					}
+					continue
+				}
+				// (2) the list itself is assigned
+				if !isUsersAddr(st.Addr) {
+					continue
+				}
+				n++
+				k++
+				key := fmt.Sprintf("%s|user-list-assigned#%d", name, k)
+				v := world.Unwrap(st.Val)
+				kind := ""
+				if c, ok := v.(*ssa.Call); ok {
+					if bi, ok := c.Call.Value.(*ssa.Builtin); ok && bi.Name() == "append" && len(c.Call.Args) > 0 && isUsersLoad(c.Call.Args[0]) {
+						kind = "append"
+					} else if f := c.Call.StaticCallee(); f != nil && strings.HasPrefix(f.String(), "slices.Delete") && len(c.Call.Args) > 0 && isUsersLoad(c.Call.Args[0]) {
+						kind = "delete"
+					}
+				}
+				switch {
+				case kind == "append":
+					r.OK(key, w.InstrPos(in), "the user list only grows here (append to the list itself): existing records keep their identity")
+				case kind == "delete" && handlesConnections(top):
+					r.OK(key, w.InstrPos(in), "records are removed together with the termination of the connections bound to them")
+				case handlesConnections(top):
+					r.OK(key, w.InstrPos(in), "the list is rebuilt in a function that also re-binds / terminates the connections")
+				default:
+					r.Fail(key, w.InstrPos(in), name+" assigns the user list from something other than append(list, ...) without re-binding or terminating the open connections: connections keep pointers to records that are no longer in the list and are authorized by rules that later ACL commands cannot change")
+				}
+			}
+		}
+	}
+	if n == 0 {
+		r.Fail("UP|anchor", "", "no assignment to ACL.Users found in the acl package: the anchor of the rule is lost")
+	}
 }
